@@ -128,12 +128,15 @@ Inductive obl :=
 | OCteName (seen : list name) (n : name).
 
 (* what a dialect admits beyond the standard rules *)
-Record prof := mkProf { al_where : bool; al_group : bool; al_having : bool; al_order_nested : bool; zero_cols : bool }.
-Definition strict := mkProf false false false false false.
+Record prof := mkProf { al_where : bool; al_group : bool; al_having : bool; al_order_nested : bool; zero_cols : bool;
+                        implicit_rec : bool (* T-SQL: a CTE may refer to itself without the RECURSIVE keyword *) }.
+Definition strict := mkProf false false false false false false.
 
 Section Obls.
   Variable P : prof.
   Definition when (b : bool) (l : list name) : list name := if b then l else [].
+  (* is the CTE visible inside its own body: WITH RECURSIVE, or a dialect where recursion is implicit *)
+  Definition recv (rc : bool) : bool := rc || implicit_rec P.
 
   Fixpoint item_aliases (i : items) : list name :=
     match i with
@@ -179,7 +182,7 @@ Section Obls.
     | CNil => []
     | CCons n q r =>
         OCteName seen n
-        :: o_query (if rc then (n, out_query te q, SelfVis) :: te else te) [] q
+        :: o_query (if recv rc then (n, out_query te q, SelfVis) :: te else te) [] q
         ++ o_ctes ((n, out_query te q, Normal) :: te) rc (n :: seen) r
     end
   with o_setexpr (te : tenv) (sc : scope) (s : setexpr) {struct s} : list obl :=
